@@ -9,9 +9,13 @@ import (
 	"fmt"
 	"hash/fnv"
 	"io"
+	"os"
+	"path/filepath"
+	"strings"
 	"time"
 
 	"verif.local/sim/rt"
+	"verif.local/sim/simnet"
 	"verif.local/sim/simtime"
 )
 
@@ -244,6 +248,8 @@ type ledgers struct {
 	everVoter map[uint64]bool
 	okUpdates map[uint64]*opRec
 	elections int
+	candidates map[uint64]int
+	appliedBy  map[uint64]int
 	leaderChanges int
 	lastLeader    uint64
 
@@ -261,6 +267,8 @@ func (l *ledgers) init(run *simRun) {
 	l.cmdAt = map[uint64][]entKey{}
 	l.everVoter = map[uint64]bool{}
 	l.okUpdates = map[uint64]*opRec{}
+	l.candidates = map[uint64]int{}
+	l.appliedBy = map[uint64]int{}
 }
 
 func hashBytes(b []byte) uint64 {
@@ -287,10 +295,68 @@ func (l *ledgers) onStarted(ni *nodeInc) {
 			l.everVoter[id] = true
 		}
 	}
+	// C10: the log a node restarts with is contiguous with its latest snapshot
+	prev, last, snap := r.log.PrevIndex(), r.lastLogIndex, r.snaps.index
+	if ni.n > 0 {
+		if !(prev <= snap && snap <= last) {
+			l.run.violate("C10", "log_snapshot_gap", "restart:log_not_contiguous_with_snapshot", "%v restarted with log (%d,%d] and snapshot index %d", ni, prev, last, snap)
+			return
+		}
+		if snap > prev {
+			if t, err := r.storage.getEntryTerm(snap); err == nil && t != r.snaps.term {
+				l.run.violate("C10", "log_snapshot_conflict", "restart:log_conflicts_with_snapshot", "%v restarted with snapshot (%d,%d) but its log holds (%d,%d)", ni, snap, r.snaps.term, snap, t)
+				return
+			}
+		}
+	}
 	l.scanLog(ni, true)
 }
 
 func (l *ledgers) onServeReturned(ni *nodeInc) {}
+
+// onStartFailed: C10 — a node restarted on the directory a crash left behind must start.
+func (l *ledgers) onStartFailed(ni *nodeInc, what string, err error) {
+	if ni.dead {
+		return
+	}
+	l.run.violate("C10", "restart_failed", "restart_failed:"+what+":"+errClass(err), "%v could not start on its storage directory (incarnation %d): %s: %v\n%s", ni, ni.n, what, err, listDir(ni.dir))
+}
+
+func errClass(err error) string {
+	s := err.Error()
+	// strip paths and numbers so that the signature names the failure, not the instance
+	out := make([]rune, 0, len(s))
+	for _, r := range s {
+		if r >= '0' && r <= '9' {
+			continue
+		}
+		out = append(out, r)
+	}
+	s = string(out)
+	if i := strings.Index(s, "/dev/shm"); i >= 0 {
+		j := strings.IndexAny(s[i:], " :")
+		if j < 0 {
+			j = len(s) - i
+		}
+		s = s[:i] + "<dir>" + s[i+j:]
+	}
+	if len(s) > 100 {
+		s = s[:100]
+	}
+	return s
+}
+
+func listDir(dir string) string {
+	out := ""
+	_ = filepath.Walk(dir, func(p string, info os.FileInfo, err error) error {
+		if err == nil && !info.IsDir() {
+			rel, _ := filepath.Rel(dir, p)
+			out += fmt.Sprintf("    %s %d\n", rel, info.Size())
+		}
+		return nil
+	})
+	return out
+}
 
 func (l *ledgers) onCrash(ni *nodeInc, image string) {}
 func (l *ledgers) onWipe(n *simNode)                  {}
@@ -309,8 +375,17 @@ func (l *ledgers) sawLeader(ni *nodeInc, term uint64) {
 	l.leaderOf[term] = id
 	if l.lastLeader != 0 && l.lastLeader != id {
 		l.leaderChanges++
+		if l.upto > 0 {
+			l.run.reach("leader_change_after_commit")
+		}
 	}
 	l.lastLeader = id
+	for _, o := range l.run.liveIncs() {
+		if o.obs.started && o.obs.last > l.upto {
+			l.run.reach("elected_with_uncommitted")
+			break
+		}
+	}
 }
 
 // ---- log scanning: C04, C02 --------------------------------------------------------------------
@@ -536,6 +611,7 @@ func (l *ledgers) observe(ni *nodeInc) {
 
 func (l *ledgers) onApply(f *recFSM, id uint64) {
 	run := l.run
+	l.appliedBy[f.inc.node.id]++
 	n := len(f.cmds)
 	if n > len(l.G) {
 		run.violate("C03", "applied_uncommitted", "applied_beyond_committed", "%v applied command %d at position %d but only %d updates are committed", f.inc, id, n, len(l.G))
@@ -646,6 +722,10 @@ func (run *simRun) installTracer() {
 			return
 		}
 		run.led.elections++
+		run.led.candidates[r.term]++
+		if run.led.candidates[r.term] == 2 {
+			run.reach("two_candidates_one_term")
+		}
 		if !r.configs.Latest.isVoter(r.nid) {
 			run.violate("C11", "nonvoter_election", "nonvoter_election", "%v started an election for term %d but is not a voter in its latest configuration %v", ni, r.term, r.configs.Latest)
 		}
@@ -653,6 +733,14 @@ func (run *simRun) installTracer() {
 }
 
 func (run *simRun) probe(name string, args []interface{}) {
+	switch name {
+	case "Raft.onAppendEntriesRequest:exit":
+		if res, ok := args[3].(rpcResult); ok && res == staleTerm {
+			if ni := run.raftOf[args[0].(*Raft)]; ni != nil && !ni.dead {
+				run.reach("append_stale_term")
+			}
+		}
+	}
 	if run.dbgOn {
 		switch name {
 		case "Raft.onRequest:enter":
@@ -665,6 +753,28 @@ func (run *simRun) probe(name string, args []interface{}) {
 			repl := args[0].(*replication)
 			resp := args[1].(*appendResp)
 			run.dbg("repl->n%d resp T%d %v last=%d reqLast=%v match=%d next=%d", repl.status.id, resp.term, resp.result, resp.lastLogIndex, args[2], repl.matchIndex, repl.nextIndex)
+		case "candidate.onVoteResult:enter":
+			c := args[0].(*candidate)
+			resp := args[1].(rpcResponse)
+			if resp.err != nil {
+				run.dbg("n%d voteResult from n%d err=%v", c.nid, resp.from, resp.err)
+			} else {
+				run.dbg("n%d voteResult from n%d T%d result=%v (needed %d)", c.nid, resp.from, resp.getTerm(), resp.getResult(), c.votesNeeded)
+			}
+		case "connPool.getConn:exit":
+			pool := args[0].(*connPool)
+			if c, _ := args[2].(*conn); c != nil {
+				if sc, ok := c.rwc.(*simnet.Conn); ok {
+					run.dbg("n%d pool->n%d getConn conn%d buffered=%d", pool.src, pool.nid, sc.ID, sc.Buffered())
+				}
+			}
+		case "connPool.returnConn:enter":
+			pool := args[0].(*connPool)
+			if c, _ := args[1].(*conn); c != nil {
+				if sc, ok := c.rwc.(*simnet.Conn); ok {
+					run.dbg("n%d pool->n%d returnConn conn%d buffered=%d bufr=%d peerPending=%d", pool.src, pool.nid, sc.ID, sc.Buffered(), c.bufr.Buffered(), sc.Peer.Pending())
+				}
+			}
 		case "candidate.startElection:exit":
 			c := args[0].(*candidate)
 			run.dbg("n%d startElection T%d", c.nid, c.term)
@@ -694,11 +804,20 @@ func (run *simRun) dbg(format string, a ...interface{}) {
 // ---- per-step observation ---------------------------------------------------------------------
 
 func (run *simRun) afterStep() {
+	var dg uint64 = 1469598103934665603
+	defer func() {
+		if dg != run.lastDigest {
+			run.lastDigest = dg
+			run.digests[dg] = struct{}{}
+		}
+	}()
 	for _, n := range run.nodes {
 		ni := n.inc
 		if ni == nil || ni.dead || ni.r == nil || !ni.obs.started {
+			dg = mixHash(dg, 0)
 			continue
 		}
+		dg = mixHash(mixHash(mixHash(mixHash(dg, uint64(ni.r.state)), ni.r.term), ni.r.commitIndex), ni.r.lastLogIndex)
 		if ni.exited {
 			continue
 		}
@@ -799,5 +918,25 @@ func (run *simRun) converged() (bool, string) {
 }
 
 func (run *simRun) finalChecks() {}
+
+// nontrivial evaluates, per property, the reach rule of DESIGN.md section 6.1.
+func (run *simRun) nontrivial() map[string]bool {
+	l := &run.led
+	re := run.st.Reach
+	fa := run.st.Faults
+	restarts := fa["restart"]
+	nodes20 := 0
+	for _, n := range l.appliedBy {
+		if n >= 20 {
+			nodes20++
+		}
+	}
+	m := map[string]bool{}
+	m["C01"] = l.elections >= 3 && (re["two_candidates_one_term"] > 0 || l.leaderChanges >= 1)
+	m["C02"] = re["leader_change_after_commit"] > 0 && (re["truncate_conflict"] > 0 || re["elected_with_uncommitted"] > 0)
+	m["C03"] = nodes20 >= 2 && (l.leaderChanges >= 1 || re["restore"] > 0 || restarts > 0)
+	m["C04"] = re["truncate_conflict"] > 0 || re["append_stale_term"] > 0
+	return m
+}
 
 var _ = io.EOF
